@@ -123,7 +123,7 @@ impl Property for C03 {
 
     fn cases(tier: Tier) -> u32 {
         match tier {
-            Tier::Quick => 4000,
+            Tier::Quick => 12000,
             Tier::Thorough => 500000,
         }
     }
